@@ -196,6 +196,88 @@ def _tg_seed(i):
     return tg
 
 
+def _read_all(tg):
+    """what any caller does between two edits: look at the textgrid"""
+    return (tg.tiers, tg.tierNames, len(tg.tiers), [t.name for t in tg.tiers], tg.minTimestamp, tg.maxTimestamp)
+
+
+def _assembled(i, how):
+    """the textgrid of _tg_seed(i) - same names, order, spans, entries - put together by another sequence of public calls, with the caller
+    looking at it (tiers, tierNames) between the steps"""
+    plain = _tg_seed(i)
+    tiers = [t.new() for t in plain.tiers]
+    tg = Textgrid(plain.minTimestamp, plain.maxTimestamp)
+    _read_all(tg)
+    if how == "inserted-at-the-front":          # last tier first, every other one put in front of it with tierIndex=0
+        for t in reversed(tiers):
+            tg.addTier(t, 0)
+            _read_all(tg)
+    elif how == "inserted-by-position":         # first and last appended, the others inserted at their position
+        for t in tiers[:1] + tiers[2:]:
+            tg.addTier(t)
+            _read_all(tg)
+        if len(tiers) > 1:
+            tg.addTier(tiers[1], 1)
+            _read_all(tg)
+    elif how == "with-a-tier-removed-again":
+        for k, t in enumerate(tiers):
+            if k == 1:
+                tg.addTier(IT("scratch tier", [(0.0, 1.0, "tmp")], plain.minTimestamp, plain.maxTimestamp))
+                _read_all(tg)
+            tg.addTier(t)
+            _read_all(tg)
+        if len(tiers) < 2:
+            tg.addTier(IT("scratch tier", [(0.0, 1.0, "tmp")], plain.minTimestamp, plain.maxTimestamp))
+            _read_all(tg)
+        tg.removeTier("scratch tier")
+        _read_all(tg)
+    elif how == "renamed-into-place":
+        for k, t in enumerate(tiers):
+            tg.addTier(t.new("working name %d" % k))
+            _read_all(tg)
+        for k, t in enumerate(tiers):
+            tg.renameTier("working name %d" % k, t.name)
+            _read_all(tg)
+    elif how == "replaced-into-place":
+        for t in tiers:
+            tg.addTier(t.new(t.name, []))
+            _read_all(tg)
+        for t in tiers:
+            tg.replaceTier(t.name, t)
+            _read_all(tg)
+    else:
+        raise ValueError(how)
+    return tg
+
+
+ASSEMBLIES = ("inserted-at-the-front", "inserted-by-position", "with-a-tier-removed-again", "renamed-into-place", "replaced-into-place")
+
+
+def _check_assembly(si, name, f):
+    """the producer on the same textgrid assembled in other ways: same result, same state of the receiver afterwards"""
+    def run(tg):
+        st, r, out = call(f, tg)
+        if st == "exc":
+            return ("raised", type(r).__name__), snap_tg(tg)
+        return (snap_tg(r) if isinstance(r, Textgrid) else repr(r), out), snap_tg(tg)
+    plain = _tg_seed(si)
+    want0 = snap_tg(plain)
+    want = run(plain)
+    for how in ASSEMBLIES:
+        try:
+            tg = _assembled(si, how)
+        except Exception as e:
+            return Viol("assembly-raised", f"building seed textgrid {si} {want0} {how} raised {e!r}")
+        if snap_tg(tg) != want0:
+            return Viol("assembly-history-visible", f"seed textgrid {si} built {how} is {snap_tg(tg)}, built by appending its tiers {want0}")
+        got = run(tg)
+        if got != want:
+            return Viol("result-depends-on-how-the-textgrid-was-assembled",
+                        f"textgrid {name} on seed {si} {want0}: when the textgrid was built {how} (the caller reading tg.tiers / tg.tierNames between the "
+                        f"steps) the result and the receiver afterwards are {str(got)[:400]}; when built by appending the tiers: {str(want)[:400]}")
+    return None
+
+
 def _other_tg():
     tg = Textgrid(0.0, 3.0)
     tg.addTier(IT("a", [(0.5, 1.0, "oa")], 0.0, 3.0))
@@ -314,6 +396,10 @@ def _check_tg(case):
                 viols.append(Viol("result-entangled-with-source",
                                   f"textgrid {name} on seed {si}: using and then editing the RETURNED textgrid (rename / add / replace / remove tiers"
                                   f"{'' if may_share else ', edit a tier in place'}) changed the source: {before} -> {after}"))
+    if not viols:
+        v = _check_assembly(si, name, f)
+        if v is not None:
+            viols.append(v)
     if viols:
         return 2, "!", None, viols
     a, b = res["result"], res["rebuilt"]
